@@ -177,7 +177,7 @@ def mutants(args):
                     os.unlink(p)
         finally:
             shutil.rmtree(d, ignore_errors=True)
-    out_path = os.path.join(VERIF_ROOT, "evidence", "sensitivity.json")
+    out_path = os.path.join(VERIF_ROOT, "sensitivity_selftest.json")
     if not args.names:
         with open(out_path, "w") as f:
             json.dump({"results": results, "missed": missed, "total": len(results)}, f, indent=1)
